@@ -69,7 +69,7 @@ def main():
     known = [k for k in load_known() if k['property'] == args.prop]
     try:
         prog, reg = _init()
-        results = verify_contracts(P['contracts'], budget=budget, procs=args.procs, want_smt=False, known=known)
+        results = verify_contracts(P['contracts'], budget=budget, procs=args.procs, want_smt=(args.tier == 'thorough'), known=known)
     except Exception as e:
         import traceback
         traceback.print_exc()
@@ -193,6 +193,45 @@ def main():
             violations.append({'contract': cname, 'obligation': 'post.' + f['failed'][0], 'case': None, 'replay': f,
                                'kind': 'bounded-search-counterexample', 'solver': [x[1]['tried'] for x in items][:3]})
             confirmed_keys.add((cname, f['failed'][0]))
+    # ---- thorough tier: (1) the same contracts evaluated natively on the real functions over a bounded input space
+    #      (a CPython cross-check of contracts, models and engine; labelled bounded, never counted as proved);
+    #      (2) a sample of solver-discharged obligations re-asked of every back end: any 'sat' is a checker fault
+    thorough_notes = {}
+    if args.tier == 'thorough':
+        xc = {}
+        for cn in P['contracts']:
+            cname, recv = (cn if isinstance(cn, tuple) else (cn, None))
+            key_ = '%s%s' % (cname, '@' + recv if recv else '')
+            if (cname, recv) in open_keys or key_ in xc:
+                continue
+            con_ = reg.contract_for(cname, recv)
+            if getattr(con_, 'standin', True) is False:
+                continue
+            bd = P.get('bounds', {}).get(cname, P.get('bounds', {}).get('*', {}))
+            res = harness({'mode': 'enum', 'contract': cname, 'receiver': recv, 'bounds': bd, 'limit': 20000, 'random': 30000, 'seed': seed}, timeout=900)
+            xc[key_] = {k: res.get(k) for k in ('evaluations', 'in_domain', 'status')}
+            fails = [f for f in (res.get('failures') or []) if any(tagged('post.' + c) for c in f.get('failed', []))]
+            if fails:
+                f = fails[0]
+                f['failed'] = [c for c in f['failed'] if tagged('post.' + c)]
+                violations.append({'contract': cname, 'obligation': 'post.' + f['failed'][0], 'case': None, 'replay': f,
+                                   'kind': 'bounded-search-counterexample', 'solver': []})
+                confirmed_keys.add((cname, f['failed'][0]))
+        thorough_notes['native_cross_check'] = {'label': 'bounded (not counted as proved)', 'per_contract': xc}
+        import pyvc.solver as SV_
+        sample = [o for r in results for o in r['obligations'] if o.get('smt2') and o['status'] == 'proved'][:48]
+        agree = {'asked': 0, 'unsat': 0, 'unknown': 0, 'sat': 0}
+        for o in sample:
+            for cmd, text in (([SV_.CVC5, '--strings-exp', '--tlimit=20000'], '(set-logic ALL)\n' + o['smt2']), ([SV_.Z3OLD, '-T:20'], o['smt2'])):
+                if len(o['smt2']) >= 19990:
+                    continue        # truncated text
+                ans, _ = SV_._run_cli(cmd, text, 20)
+                agree['asked'] += 1
+                agree[ans] += 1
+        thorough_notes['backend_agreement_sample'] = agree
+        if agree['sat']:
+            print('CHECKER-FAULT: a back end answers sat on an obligation another back end discharged (%r)' % agree)
+            return 3
     # ---- sat under a complete encoding, proved on the baseline, no input found ---------------
     baseline = load_baseline()
     for r, o in refuted:
@@ -285,7 +324,7 @@ def main():
             'undecided_obligations': und_keys,
             'unsupported': ['%s %s: %s' % (c.split('.')[-1], json.dumps(cs), u) for c, cs, u in unsupported][:20],
             'samples': samples or [{'note': 'all obligations were discharged by the incremental path solver'}],
-            'replays': replay_log[:20], 'bounded_stand_in': bounded_info, 'extra': extra_notes,
+            'replays': replay_log[:20], 'bounded_stand_in': bounded_info, 'extra': extra_notes, 'thorough': thorough_notes,
             'known_findings_reported': sorted(kf_reported),
             'excluded_by_known_finding': len(knownhits),
             'platform_pruned': sorted({p for r in results for p in r.get('pruned', [])}),
